@@ -1,5 +1,5 @@
 //@unit contain
-//@props C12
+//@props C12 C10
 // U-contain: surround / inside (src/element.rs: handle_containment, position_from_bbox,
 // inscribed_bbox; src/position.rs: remove_attrs). A surrounding rect equals the box exactly, a
 // circle / ellipse circumscribes it (nonlinear lemma over sqrt2^2 = 2), inscribed shapes stay inside,
@@ -100,6 +100,12 @@ impl SvgElement {
 
 // ------------------------------------------------------------------------------ inscribed_bbox / handle_containment
 pub uninterp spec fn elem_bbox(e: SvgElement) -> Option<BoundingBox>;
+/// a shorthand / relative / containment attribute still awaits resolution (the list of SvgElement::has_pending_geometry, proved in U-bbox)
+pub open spec fn pending(m: M) -> bool {
+    m.dom().contains("xy"@) || m.dom().contains("cxy"@) || m.dom().contains("xy1"@) || m.dom().contains("xy2"@) || m.dom().contains("xy-loc"@)
+    || m.dom().contains("dxy"@) || m.dom().contains("wh"@) || m.dom().contains("dwh"@) || m.dom().contains("dw"@) || m.dom().contains("dh"@)
+    || m.dom().contains("surround"@) || m.dom().contains("inside"@)
+}
 pub uninterp spec fn union_spec(s: Seq<BoundingBox>) -> Option<BoundingBox>;
 pub uninterp spec fn inter_spec(s: Seq<BoundingBox>) -> Option<BoundingBox>;
 pub uninterp spec fn boxes_of(ctx: Ctx, refs: Seq<char>, surround: bool, shape: Seq<char>) -> Option<Seq<BoundingBox>>;
@@ -156,6 +162,14 @@ impl SvgElement {
 //@ - forall|k: Seq<char>| #[trigger] old(self).attrs@.dom().contains(k) && (forall|i: int| 0 <= i < it.index@ ==> (#[trigger] keys@[i])@ != k) ==> self.attrs@.dom().contains(k)
 //@end
 
+//@item src/element.rs :: impl SvgElement :: fn has_attr
+//@ ensures
+//@ - r == self.attrs@.dom().contains(key@)
+//@end
+//@item src/element.rs :: impl SvgElement :: fn has_pending_geometry
+//@ ensures
+//@ - r == pending(self.attrs@)     @@C10.pending.spec
+//@end
 //@item src/element.rs :: impl SvgElement :: fn inscribed_bbox
 //@ replace-all[R-const] <<<FRAC_1_SQRT_2>>> => <<<frac_1_sqrt_2()>>>
 //@ replace[R-strmatch-tuple] <<<match (target_shape, self.name.as_str()) {>>> => <<<{ let m_ = (target_shape, self.name.as_str());>>>
@@ -174,7 +188,8 @@ impl SvgElement {
 //@       let rx = strp_spec(self.attrs@["rx"@])->Some_0; let ry = strp_spec(self.attrs@["ry"@])->Some_0;
 //@       let (x1, y1, x2, y2) = bx(r->Ok_0->Some_0);
 //@       x1 == cx - rx * isqrt2v() && y1 == cy - ry * isqrt2v() && x2 == cx + rx * isqrt2v() && y2 == cy + ry * isqrt2v() })     @@C12.inside.rect_in_ellipse
-//@ - !(target_shape@ == "rect"@ && (self.name@ == "circle"@ || self.name@ == "ellipse"@)) && r is Ok ==> r->Ok_0 == elem_bbox(*self)     @@C12.inside.same_shape
+//@ - pending(self.attrs@) && r is Ok ==> r->Ok_0 is None     @@C10.pending.inscribed
+//@ - !pending(self.attrs@) && !(target_shape@ == "rect"@ && (self.name@ == "circle"@ || self.name@ == "ellipse"@)) && r is Ok ==> r->Ok_0 == elem_bbox(*self)     @@C12.inside.same_shape
 //@end
 
 //@item src/element.rs :: impl SvgElement :: fn handle_containment
